@@ -7,8 +7,8 @@ Local Open Scope string_scope.
 
 Example tie_C11_derivative_integral :
   thr_gradient__derivative_integral =
-    [("np.abs(dE) < 1e-07", (944473296573929, -73)%Z); ("np.abs(EdE) < 1e-07", (944473296573929, -73)%Z);
-     ("np.abs(EdEdE) < 1e-07", (944473296573929, -73)%Z)]
+    [("np.abs(dE * dt) < 1e-07", (944473296573929, -73)%Z); ("np.abs(EdE * dt) < 1e-07", (944473296573929, -73)%Z);
+     ("np.abs(EdEdE * dt) < 1e-07", (944473296573929, -73)%Z)]
   /\ (di_thr_dE, di_thr_EdE, di_thr_EdEdE) = ((944473296573929, -73)%Z, (944473296573929, -73)%Z, (944473296573929, -73)%Z)
   /\ Src.h_gradient__derivative_integral = Expected.h_gradient__derivative_integral
   /\ Src.h_util_cexp = Expected.h_util_cexp.
@@ -16,6 +16,8 @@ Proof. repeat split; reflexivity. Qed.
 
 Example tie_C11_liouville_derivative :
   einsum_gradient__liouville_derivative = ["htsba,tjkba->thsjk"]
+  /\ thr_gradient__liouville_derivative = [("np.abs(omega_diff * dt_broadcast) < 1e-07", (944473296573929, -73)%Z)]
+  /\ ld_thr = (944473296573929, -73)%Z
   /\ Src.h_gradient__liouville_derivative = Expected.h_gradient__liouville_derivative
   /\ Src.h_superoperator_liouville_representation = Expected.h_superoperator_liouville_representation.
 Proof. repeat split; reflexivity. Qed.
